@@ -309,6 +309,8 @@ def check(F, R, Gm):
     w_order(F, R)
     s_names(F, R, Gm)
     t_sets(F, R)
+    import c19
+    c19.s_arity(F, R, side="runtime")
 
 
 # ---- T-SETS -------------------------------------------------------------------------------------------
